@@ -1,6 +1,7 @@
 """C10 -- whatever the repository editor signs and writes, the client loads back unchanged (Editor.tla)."""
 import json, os
 import vlib
+import delegclilib
 import lifecyclelib
 from vlib import tlc, make_cfg, vh, workdir, write_ndjson, read_ndjson, Verdict, log
 
@@ -114,11 +115,14 @@ def run(tier, seed):
            "rule": "programs = every sequence of up to 4 accepted editor operations ending in RepositoryEditor::sign, from Editor.tla with the threshold check switched off in the generator (so that programs the editor must refuse are tried too): add/remove target, version bumps, delegate_role (from targets or from d1; 1-2 keys, threshold 1-2, every path set over the names), sign_targets_editor and sign with adequate and inadequate key sets, change_delegated_targets; names with a space, a non-ASCII character and sub-directories, sizes 0..32 KiB, copy and symlink publication, both consistent_snapshot settings; each is run through the real editor, written, loaded back over an HTTP-like transport and over file:// URLs, every target downloaded; non-trivial = the program delegates or edits a delegated role",
            "programs_refused_by_editor": stats.get("refused", 0), "signing_attempts_with_too_few_keys": stats.get("probes", 0), "exhaustive": tier == "thorough"}
     cov.update(lifecyclelib.run_into(v, PID, tier, seed))
+    cov.update(delegclilib.run_into(v, PID, tier, seed))
     return v.finish("model_checking", cov, ["TLC; signatures abstracted to signer sets; the cross-party flow is EditorX.tla: every combination of threshold, current and incoming version and signer set (authorized / foreign keys, one key signing twice), each run through update_delegated_targets, sign, write and load",
                                             "F14 (FilesystemTransport does not percent-decode target names) is a recorded finding"])
 
 
 def replay(path, seed):
+    if json.load(open(path))["replay"].get("delegcli"):
+        return delegclilib.replay(path, PID, seed)
     if json.load(open(path))["replay"].get("lifecycle"):
         return lifecyclelib.replay(path, PID, seed)
     rp = json.load(open(path))["replay"]
